@@ -105,11 +105,13 @@ Inductive step_in :=
 | AppendResp (from t : N)
 | BecomeLeader
 | Propose (h : N)
-| InstallSnap (lit : N) (ents : list lentry) (accepted : bool).
+| InstallSnap (lit : N) (ents : list lentry) (accepted : bool)
+| PreVote (from t : N) (granted : bool).
   (* install_snapshot(metadata, data): ents = the snapshot's entries (a complete log from index 1,
      last_included_term lit = term of the last one); accepted = the call returned Ok (a snapshot
      that is not newer than the last one, or fails validation, is refused before anything is
-     written -- read off the implementation) *)
+     written -- read off the implementation);
+     PreVote: start_pre_vote() followed by a PreVoteResponse{term t, vote_granted} from a peer *)
 
 (* what the caller gets back, as numbers: [term; flag; index] *)
 Definition step_out := list N.
@@ -206,6 +208,13 @@ Definition step (n : node) (s : step_in) : node * list rentry * step_out :=
           if llen ents <? llen l1 then (firstn (length ents) l1, [LogTruncate (llen ents + 1)])
           else (l1, []) in
         (Node (term n1) (voted n1) l2 (role n1) (votes n1), w1 ++ w2 ++ w3, [1])
+  | PreVote from t granted =>
+      (* a higher term learned in the pre-vote phase is adopted like anywhere else: logged first *)
+      if term n <? t then (Node t None (log n) FOLLOWER (votes n), [TermAndVote t None], [])
+      (* one granted pre-vote of a peer + the node's own = quorum of three: the real election starts *)
+      else if granted && (t =? term n) then
+        (Node (term n + 1) (Some SELF) (log n) CANDIDATE [SELF], [TermAndVote (term n + 1) (Some SELF)], [])
+      else (n, [], [])
   | Propose h =>
       if role n =? LEADER then
         let i := llen (log n) + 1 in
